@@ -51,6 +51,7 @@ type reqCall struct {
 	// the wire (the payload's n attribute names the call) and stores in id.
 	idMode int
 	nAttr  string
+	hold   time.Duration // readProg 1, 2: pause between the response's start tag and the rest
 	// when the call's context ended or will end (its deadline, or the instant of the explicit cancel if that came first)
 	ctxEndAt time.Duration
 }
@@ -88,6 +89,10 @@ func readResp(r xmlstream.TokenReadCloser, prog int, c *reqCall) {
 	c.gotName, c.gotID, c.gotType = st.Name.Local, el.Attr("id"), el.Attr("type")
 	if prog == 0 {
 		return
+	}
+	if c.hold > 0 {
+		// an application that takes its time with the response it holds
+		simrt.Sleep(c.hold)
 	}
 	n := 0
 	for {
@@ -295,6 +300,9 @@ func runC06(rc *RC) {
 				c.idMode = 1 + ch.Int("workload", 2)
 				rc.Fire("library-chosen-id")
 			}
+			if c.readProg > 0 && ch.Chance("workload", 1, 4) {
+				c.hold = []time.Duration{time.Millisecond, 10 * time.Millisecond, 40 * time.Millisecond}[ch.Int("workload", 3)]
+			}
 			if wf {
 				// the write-fault configuration: nobody gives up for three minutes, so that a serve loop that waits for a
 				// caller which has long returned with a write error shows as a stall; requests take several writes
@@ -350,6 +358,19 @@ func runC06(rc *RC) {
 	})
 	e.Serve(handler)
 
+	if !wf && ch.Chance("workload", 1, 5) {
+		// the application moves the session's close deadline (far into the future: it never passes in this run) while
+		// requests are under way, also while a caller holds a response: nothing may change for anybody
+		k := ch.Range("workload", 1, 3)
+		gap := []time.Duration{0, time.Millisecond, 5 * time.Millisecond, 20 * time.Millisecond, 100 * time.Millisecond}[ch.Int("workload", 5)]
+		rc.Fire("close-deadline-moved")
+		rc.Spawn("deadline-setter", func() {
+			for i := 0; i < k; i++ {
+				simrt.Sleep(gap)
+				e.Sess.SetCloseDeadline(time.Now().Add(time.Duration(2+i) * time.Hour))
+			}
+		})
+	}
 	var reqTasks []*simrt.Task
 	for i, pl := range plans {
 		pl := pl
@@ -533,6 +554,9 @@ func runC06(rc *RC) {
 		// a reply was delivered
 		if c.idMode != 0 && c.gotID == c.nAttr && (strings.HasPrefix(c.kind, "Unmarshal") || strings.HasPrefix(c.kind, "Iter")) {
 			c.gotID = c.id // these helpers hand out no id: doReq filled in the call's name at that moment
+		}
+		if c.readProg == 2 && c.gotMarker == "" && c.gotName == c.stanza && (c.kind == "SendIQ" || c.kind == "SendIQElement" || c.kind == "EncodeIQ" || c.kind == "EncodeIQElement" || c.kind == "SendMessage" || c.kind == "SendPresence") {
+			rc.Failf("C06.c1", "response-truncated:"+c.kind, "%s id=%s read its response <%s type=%q> to the end and did not find the content the peer had put into it (every reply carries a marker)", c.kind, c.id, c.gotName, c.gotType)
 		}
 		if c.gotName != c.stanza || c.gotID != c.id || (c.gotType != "result" && c.gotType != "error") {
 			rc.Failf("C06.c1", "wrong-reply:"+c.kind, "%s id=%s received <%s id=%q type=%q> as its reply", c.kind, c.id, c.gotName, c.gotID, c.gotType)
